@@ -359,6 +359,73 @@ def rule_h(R, ctx, rid="C16.h"):
          "; ".join(problems))
 
 
+ATTR_SET_ALGEBRA = ("<yrs::id_map::ContentAttributes<A> as yrs::ids::Merge>::merge", "<yrs::id_map::ContentAttributes<A> as std::cmp::PartialEq>::eq")
+
+
+def rule_i(R, ctx, rid="C16.i"):
+    Y = ctx.yrs
+    R.rule(rid, "R-GUARD attribute sets are sets of whole attributes: the union (<ContentAttributes as Merge>::merge, run on every "
+                "overlapping piece by IdRanges::insert_with / merge / intersect) appends an attribute of `other` only where the "
+                "membership test of THAT attribute in self is false, set equality (<ContentAttributes as PartialEq>::eq) is "
+                "`same size and every element contained`, and both test membership with the element's own equality — "
+                "`<[ContentAttribute]>::contains(x)` or `PartialEq::eq` on whole ContentAttribute values — never with a comparison "
+                "of parts (name(), value(), Arc::ptr_eq): two attributes that agree in one part only are different set elements, "
+                "and a union that identifies them drops one, depends on the operand order and coalesces pieces that differ")
+    n = 0
+    for path in ATTR_SET_ALGEBRA:
+        fn = Y.fn(path)
+        fam = [fn] + list(Y.closures.get(fn.path, []))
+        member = []
+        parts = []
+        for f in fam:
+            for cs in f.calls():
+                nm = F.strip_generics(cs.name)
+                tys = [str(x) for x in cs.t.get("arg_tys", [])]
+                if nm.endswith("::contains") and any("ContentAttribute<" in x for x in tys):
+                    member.append(cs)
+                elif re.search(r"PartialEq(<.*>)?>?::(eq|ne)$", nm) and tys and all("ContentAttribute<" in x and "ContentAttributes<" not in x for x in tys):
+                    member.append(cs)
+                elif re.search(r"ContentAttribute(<.*>)?::(name|value)$", nm) or nm.endswith("Arc::ptr_eq") or re.search(r"Arc(<.*>)?::ptr_eq$", nm):
+                    parts.append(cs)
+        n += 1
+        R.ob(rid, fn, "whole-element", bool(member) and not parts,
+             "membership through %s; no comparison of parts" % sorted({F.strip_generics(c.name).rsplit("::", 1)[-1] for c in member}) if member and not parts else
+             "membership tests on whole attributes: %d; comparisons of parts: %s" % (len(member), [c.loc() + " " + F.strip_generics(c.name).rsplit("::", 1)[-1] for c in parts][:3]))
+    mg = Y.fn(ATTR_SET_ALGEBRA[0])
+    v = FnView(mg)
+    pushes = [c for c in mg.calls() if re.search(r"(Vec|SmallVec)(<.*>)?::push$", c.name)]
+    R.floor(rid, "appends in the attribute union", len(pushes), 1)
+    for cs, site in ordinal_sites(pushes):
+        el = mir_def(mg, cs.args[1])
+        src = mir_vkey(mg, el[1].args[0]) if el and el[0] == "call" and el[1].name.endswith("::clone") and el[1].args else mir_vkey(mg, cs.args[1])
+        calls_by_bb = {c.bb: c for c in mg.calls()}
+        ok = False
+        seen = []
+        for l in v.guards(cs.bb):
+            t = simp(l.term)
+            if t[0] == "call" and len(t) > 3 and l.polarity is False:
+                c = calls_by_bb.get(t[3])
+                nm = F.strip_generics(t[1])
+                if c is not None and (nm.endswith("::contains") or nm.endswith("::any")):
+                    seen.append(nm.rsplit("::", 1)[-1])
+                    if nm.endswith("::contains") and len(c.args) == 2 and mir_vkey(mg, c.args[1]) == src and term_has_field(simp_deep(v.arg(c, 0, 10)), "ContentAttributes.0") and \
+                            any(x[0] == "param" and x[1] == 1 for x in walk(simp_deep(v.arg(c, 0, 10)))):
+                        ok = True
+                    if nm.endswith("::any"):
+                        # adaptor form: self.0.iter().any(|a| a == attr): accepted when the closure compares whole attributes (checked above)
+                        recv = simp_deep(v.arg(c, 0, 12))
+                        if term_has_field(recv, "ContentAttributes.0") and any(x[0] == "param" and x[1] == 1 for x in walk(recv)):
+                            ok = True
+        R.ob(rid, mg, "union:" + site, ok, "an attribute is appended only where self does not contain that attribute" if ok else
+             "the append is decided by %s — not by `self does not contain the attribute that is appended`" % (seen or "no membership test"), cs.loc())
+    eqf = Y.fn(ATTR_SET_ALGEBRA[1])
+    ev = FnView(eqf)
+    lens = [c for c in eqf.calls() if c.name.endswith("::len")]
+    alls = [c for c in eqf.calls() if F.strip_generics(c.name).endswith("::all")]
+    R.ob(rid, eqf, "equality", len(lens) >= 2 and len(alls) >= 1, "set equality = equal sizes (%d len calls) and every element contained (%d `all`)" % (len(lens), len(alls)))
+    R.floor(rid, "attribute-set operations", n, 2)
+
+
 def check(ctx, R):
     R.run("C16.a", rule_a, ctx)
     R.run("C16.b", rule_b, ctx)
@@ -367,6 +434,7 @@ def check(ctx, R):
     R.run("C16.e", rule_e, ctx)
     R.run("C16.f", rule_f, ctx)
     R.run("C16.h", rule_h, ctx)
+    R.run("C16.i", rule_i, ctx)
     from . import scans
     R.run("C16.g", lambda R, c: scans.loop_scans(R, c, "C16.g", ["yrs::ids::IdRanges::subset_of"]), ctx)
     from . import preds
